@@ -293,6 +293,8 @@ func (t *TrafBox) RemoveEncryptionBoxes() uint64 {
 			if box.SubType() == "senc" {
 				nrBytesRemoved += ch.Size()
 				t.UUIDSenc = nil
+			} else {
+				remainingChildren = append(remainingChildren, ch)
 			}
 		default:
 			remainingChildren = append(remainingChildren, ch)
